@@ -115,6 +115,20 @@ pub struct EssRef {
 /// tau = -1 + 2 sum P_k ; ESS = m n / tau.   `ddof` as in `split_stats` (acov rescaled consistently).
 pub fn ess_ref(halves: &[Vec<f64>], ddof: usize, margin: f64) -> EssRef {
     let st = split_stats(halves, ddof);
+    let n = halves[0].len();
+    let scale = if ddof == 1 { n as f64 / (n as f64 - 1.0) } else { 1.0 };
+    ess_ref_with(halves, st.w, st.varplus, scale, margin)
+}
+
+/// The same formula with W and var+ supplied by the caller (the `ess_from_chainstats` entry point takes them from
+/// per-chain statistics: W = mean of the unbiased per-chain variances, var+ = B/n + (n-1)/n W with B/n the sample
+/// variance of the chain means) and the autocovariances multiplied by `scale`.
+pub fn ess_ref_with(halves: &[Vec<f64>], w: f64, varplus: f64, scale: f64, margin: f64) -> EssRef {
+    struct St {
+        w: f64,
+        varplus: f64,
+    }
+    let st = St { w, varplus };
     let m = halves.len();
     let n = halves[0].len();
     let mut avg = vec![0.0f64; n];
@@ -124,7 +138,6 @@ pub fn ess_ref(halves: &[Vec<f64>], ddof: usize, margin: f64) -> EssRef {
             avg[t] += ac[t] / m as f64;
         }
     }
-    let scale = if ddof == 1 { n as f64 / (n as f64 - 1.0) } else { 1.0 };
     let rho: Vec<f64> = avg.iter().map(|a| 1.0 - (st.w - a * scale) / st.varplus).collect();
     let mut pairs = vec![];
     let mut t = 0;
